@@ -307,6 +307,10 @@ fn run_inner(sc: &J) -> Result<Option<String>, String> {
             corpus.push(("[\"null\",\"string\",\"long\"]".into(), Value::Union(1, Box::new(Value::String("q".repeat(300))))));
             corpus.push(("{\"type\":\"record\",\"name\":\"r\",\"fields\":[{\"name\":\"a\",\"type\":\"long\"},{\"name\":\"b\",\"type\":\"bytes\"},{\"name\":\"c\",\"type\":\"double\"}]}".into(),
                 Value::Record(vec![("a".into(), Value::Long(i64::MIN)), ("b".into(), Value::Bytes(vec![1; 65600])), ("c".into(), Value::Double(1.5))])));
+            corpus.push(("{\"type\":\"record\",\"name\":\"o\",\"fields\":[{\"name\":\"id\",\"type\":\"long\"},{\"name\":\"name\",\"type\":\"string\"},{\"name\":\"note\",\"type\":[\"null\",\"string\"]},{\"name\":\"flag\",\"type\":[\"null\",\"boolean\"]}]}".into(),
+                Value::Record(vec![("id".into(), Value::Long(7)), ("name".into(), Value::String("abc".into())), ("note".into(), Value::Union(1, Box::new(Value::String("n".into())))), ("flag".into(), Value::Union(1, Box::new(Value::Boolean(true))))])));
+            corpus.push(("[\"null\",\"long\"]".into(), Value::Union(1, Box::new(Value::Long(300)))));
+            corpus.push(("{\"type\":\"map\",\"values\":[\"null\",\"long\"]}".into(), Value::Map([("k".to_string(), Value::Union(0, Box::new(Value::Null)))].into_iter().collect())));
             for (st, v) in corpus {
                 let schema = Schema::parse_str(&st).map_err(|e| e.to_string())?;
                 let full = apache_avro::to_avro_datum(&schema, v.clone()).map_err(|e| e.to_string())?;
@@ -574,6 +578,15 @@ fn run_inner(sc: &J) -> Result<Option<String>, String> {
                 }
             }
             Ok(None)
+        }
+        // C15: round trip of a run of `len` copies of `byte` (highly compressible, larger than codec windows)
+        "codec_roundtrip_run" => {
+            let codec = match sc["codec"].as_str().unwrap_or("null") { "deflate" => apache_avro::Codec::Deflate(Default::default()), _ => apache_avro::Codec::Null };
+            let payload = vec![sc["byte"].as_u64().unwrap_or(0) as u8; sc["len"].as_u64().unwrap_or(0) as usize];
+            let mut buf = payload.clone();
+            codec.compress(&mut buf).map_err(|e| e.to_string())?;
+            let clen = buf.len();
+            match codec.decompress(&mut buf) { Ok(()) if buf == payload => Ok(None), Ok(()) => Ok(Some(format!("decompress(compress(x)) != x for a run of {} bytes", payload.len()))), Err(e) => Ok(Some(format!("decompress rejects compress(x) for a run of {} bytes (compressed to {clen}): {e}", payload.len()))) }
         }
         k => Err(format!("unknown scenario kind {k:?}")),
     }
